@@ -15,7 +15,8 @@
       injective naming of contexts satisfy [sevs_wfb], and the oracle's ghost [x_open] stays equal
       to the tracked flag;
     part 3: joint histories. *)
-From Irismod Require Import Service.Model Service.Proofs Service.ProofsHist Service.ProofsSched Service.ProofsBatch.
+From Irismod Require Import Service.Model Service.Proofs Service.ProofsHist Service.ProofsSched Service.ProofsBatch
+  Service.ProofsModuleHist.
 From Coq Require Import ZifyBool.
 Open Scope Z_scope.
 
@@ -363,7 +364,7 @@ Definition step_events (c : config) (s : state) (st : step) : list lev :=
   | _ => delta_events s (apply c s st)
   end.
 
-Lemma good_exec_msg c s txh m s' : exec_msg c s txh m = Okk s' -> fresh_ctx s (Tx txh m) -> BatchInv s -> good s s'.
+Lemma good_exec_msg_plain c s txh m s' : exec_msg_plain c s txh m = Okk s' -> fresh_ctx s (Tx txh m) -> BatchInv s -> good s s'.
 Proof.
   intros H Hf Hinv. destruct m; simpl in H.
   - unfold define in H. apply good_same. l_frame H.
@@ -384,6 +385,42 @@ Proof.
   - unfold withdraw in H. apply good_same. l_frame H.
 Qed.
 
+(** a call to a module-served service: a context that is NOT module-owned is created, served at
+    once and stored completed; nothing is reported to a callback (Service.ProofsModuleHist.call_module_shape) *)
+Lemma create_lshape c s txh svc provs cons inok capd capa timeout rep freq total st thr md s' id :
+  create_context c s txh svc provs cons inok capd capa timeout rep freq total st thr md = Some (s', id) ->
+  id = (txh, iidx s) /\ cblog s' = cblog s /\ g_batches s' = g_batches s
+  /\ exists x, ctxs s' = set id x (ctxs s).
+Proof.
+  unfold create_context. intros H. repeat dmn H; inversion H; subst s' id; clear H;
+    (split; [reflexivity|split; [reflexivity|split; [reflexivity|eexists; reflexivity]]]).
+Qed.
+
+Lemma good_call_module c s txh svc provs cons inok capd capa timeout rep freq total s' :
+  call_module c s txh svc provs cons inok capd capa timeout rep freq total = Okk s' ->
+  ctx_at s (txh, iidx s) = None -> good s s'.
+Proof.
+  intros H Hf.
+  destruct (call_module_shape _ _ _ _ _ _ _ _ _ _ _ _ _ _ H)
+    as (s1 & id & x & q' & E1 & Hid & Ex & _ & _ & Xm & _ & C & _ & _ & _ & _ & _ & _ & _ & _ & _ & G & L & _).
+  destruct (create_lshape _ _ _ _ _ _ _ _ _ _ _ _ _ _ _ _ _ _ E1) as (_ & L1 & G1 & x0 & C1).
+  apply good_silent; [congruence|congruence|].
+  intros i. rewrite (mbrun_set s1 s' id (cx_state x 2) i C), (mbrun_set s s1 id x0 i C1).
+  destruct (eqb i id) eqn:Ei; [|reflexivity].
+  apply (proj1 (eqb_true_iff _ _)) in Ei. subst i. simpl. rewrite Xm. simpl.
+  unfold mbrun. unfold ctx_at in Hf. rewrite Hid, Hf. reflexivity.
+Qed.
+
+Lemma good_exec_msg c s txh m s' : exec_msg c s txh m = Okk s' -> fresh_ctx s (Tx txh m) -> BatchInv s -> good s s'.
+Proof.
+  intros H Hf Hinv. destruct m; cbn [exec_msg] in H; try (eapply good_exec_msg_plain; eassumption).
+  - revert H. destruct (module_served c svc); intros H; [discriminate|].
+    eapply (good_exec_msg_plain c s txh (MBind svc prov depd depa pr qos optok owner)); eassumption.
+  - revert H. destruct (module_served c svc); intros H.
+    + eapply good_call_module; [exact H|exact Hf].
+    + eapply (good_exec_msg_plain c s txh (MCall svc provs cons inok capd capa timeout rep freq total)); eassumption.
+Qed.
+
 Lemma goodl_step c s st : fresh_ctx s st -> BatchInv s -> goodl s (apply c s st) (step_events c s st).
 Proof.
   intros Hf Hinv. unfold step_events, apply. destruct st; simpl exec_step.
@@ -399,6 +436,8 @@ Proof.
   - apply goodl_of_good. destruct (k_pause s id cons) eqn:E; try apply good_refl. eapply good_pause_ctx; exact E.
   - apply goodl_of_good. destruct (k_start s id cons) eqn:E; try apply good_refl. eapply good_start_ctx; exact E.
   - apply goodl_of_good. destruct (k_kill s id cons) eqn:E; try apply good_refl. eapply good_kill_ctx; exact E.
+  - apply goodl_of_good. destruct (bind c s svc prov depd depa pr qos true owner) as [s'| |] eqn:E; try apply good_refl.
+    unfold bind in E. apply good_same. l_frame E.
 Qed.
 
 Fixpoint run_events (c : config) (s : state) (steps : list step) : list lev :=
@@ -412,7 +451,7 @@ Proof.
   induction steps as [|st r IH]; intros s Hf Hinv; simpl.
   - apply goodl_nil_same. repeat split.
   - destruct Hf as (F1 & F2). eapply goodl_trans; [apply goodl_step; [exact F1|exact (proj2 Hinv)]|].
-    apply IH; [exact F2|apply SInv_apply; assumption].
+    apply IH; [exact F2|apply SInv_apply_m; assumption].
 Qed.
 
 (** Over every history of the service model with fresh context ids: every response callback of a
